@@ -225,7 +225,7 @@ class Gen:
                     if p.kind == "return":
                         val, st = p.value
                         law = z3.And(z3.Not(sp["raises"]), to_z(val, "real") == sp["value"])
-                        self.add("%s/law%s@p%d" % (base, cid, pi), p, law, ["C01", "C05" if K == "PMux" else "C01"], hy, fk, rep)
+                        self.add("%s/law%s@p%d" % (base, cid, pi), p, law, ["C01", "LAW", "C05" if K == "PMux" else "C01"], hy, fk, rep)
                         offv = st["off"][0] if isinstance(st, dict) else None
                         self.add("%s/state%s@p%d" % (base, cid, pi), p, to_z(offv) == sp["state_off"], ["C01", "C04"], hy, None, None)
                         # C04: dead / inactive => 0 V and OFF
@@ -249,7 +249,7 @@ class Gen:
                         if K == "PMux" and e.etype == "ValueError" and clabel.startswith("sel") and isinstance(comp.P["rs"], list) and len(comp.P["rs"]) < n:
                             continue
                         ok = z3.And(z3.BoolVal(e.etype == "ValueError" and not e.implicit), sp["raises"])
-                        self.add("%s/raises-only-when-unstable%s@p%d" % (base, cid, pi), p, ok, ["C01", "C03"], hy, fk, rep)
+                        self.add("%s/raises-only-when-unstable%s@p%d" % (base, cid, pi), p, ok, ["C01", "C03", "LAW"], hy, fk, rep)
         return self
 
     def _replay_outp(self, comp, a, sp_unused):
@@ -320,7 +320,7 @@ class Gen:
                     rep = self._replay_inp(comp, a)
                     if p.kind == "return":
                         zv = to_z(p.value, "real")
-                        self.add("%s/law%s@p%d" % (base, cid, pi), p, zv == spv, ["C01", "C06", "C05" if K == "PMux" else "C01"], hy, None, rep)
+                        self.add("%s/law%s@p%d" % (base, cid, pi), p, zv == spv, ["C01", "LAW", "C06", "C05" if K == "PMux" else "C01"], hy, None, rep)
                         self.add("%s/nonnegative%s@p%d" % (base, cid, pi), p, zv >= 0, ["C01"], hy)
                         if K == "PMux":
                             dead = hy[0] if clabel == "sel=-1" else z3.BoolVal(False)
